@@ -1,6 +1,7 @@
 import PttVerif.Proofs.C02
 import PttVerif.Proofs.C02Pw
 import PttVerif.Proofs.C02Final
+import PttVerif.Proofs.C02Login
 /-
 C02 — Password hashes are crypt(3) DES and verify only the right password.
 Property theorems only (helper lemmas live in Proofs/C02.lean; the model in Model/C02.lean; the hand-written
@@ -315,5 +316,101 @@ theorem checkPasswd_accepts_only_wellformed (e p : List Nat) (h : CheckPasswd e 
     e.length = 14 ∧ e[13]? = some 0 ∧ ∀ i, 2 ≤ i → i < 13 → ∃ c, e[i]? = some c ∧ c ∈ Spec.alphabet64 := by
   have := fcrypt_format p e e ((checkPasswd_iff e p).mp h)
   exact ⟨this.1, this.2.1, this.2.2.2⟩
+
+/-! #### "verify only the right password" at the callers of CheckPasswd, over histories
+
+`Model/C02Login.lean`: the store user ↦ hash is the only state; ops are logins (ptt.LoginQuery / Login / CheckPasswd),
+ChangePasswd and outside writes of the stored hash. -/
+
+open Login in
+/-- a login is accepted exactly when re-hashing the password under the hash stored NOW gives that hash. -/
+theorem login_iff_current_hash (st : Store) (u pw : List Nat) :
+    loginQuery st u pw = .ok true ↔ ∃ h, lookup st u = some h ∧ Fcrypt pw h = .ok h := by
+  unfold loginQuery
+  cases hl : lookup st u with
+  | none => simp [pure, Except.pure]
+  | some h => simp [checkPasswd_iff]
+
+open Login in
+/-- … i.e. (clause (a)) exactly when the textbook crypt(3) of the password, under the two salt characters of the
+stored hash, IS the stored hash — for every stored hash whose salt characters are 7-bit and not NUL. -/
+theorem login_iff_crypt3_of_current_hash (st : Store) (u pw h : List Nat) (c0 c1 : Nat) (hl : lookup st u = some h)
+    (h0 : h[0]? = some c0) (h1 : h[1]? = some c1) (n0 : c0 ≠ 0) (n1 : c1 ≠ 0) (l0 : c0 < 128) (l1 : c1 < 128) :
+    loginQuery st u pw = .ok true ↔ Spec.crypt3 pw c0 c1 = h := by
+  have e0 : saltChar c0 = c0 := by simp [saltChar, n0]
+  have e1 : saltChar c1 = c1 := by simp [saltChar, n1]
+  have := fcrypt_eq_crypt3 pw h c0 c1 h0 h1 (by rw [e0]; exact l0) (by rw [e1]; exact l1)
+  rw [e0, e1] at this
+  rw [login_iff_current_hash]
+  constructor
+  · rintro ⟨g, hg, hf⟩
+    rw [hl] at hg; cases hg
+    rw [this] at hf; cases hf; rfl
+  · intro hc; exact ⟨h, hl, by rw [this, hc]⟩
+
+open Login in
+/-- at every point of every history the answer to a login is decided by the store as it is at that point: whatever
+the earlier operations `pre` were (successful logins with other passwords included), it is `CheckPasswd` of the hash
+stored after them. -/
+theorem history_login_decided_by_current_hash (st : Store) (pre : List Op) (u pw : List Nat) :
+    run st (pre ++ [Op.login u pw]) =
+      ((run st pre).1, (run st pre).2 ++ [ofBool (loginQuery (run st pre).1 u pw)]) := by
+  rw [run_append, run_single]; rfl
+
+open Login in
+/-- once the stored hash of `u` has been replaced (an outside write), every login of `u` is judged against the new
+hash only — in particular a password that logged in before is refused unless it also verifies against the new hash. -/
+theorem login_after_sethash (st : Store) (u h' pw : List Nat) (hu : lookup st u ≠ none) :
+    (step (step st (Op.sethash u h')).1 (Op.login u pw)).2 = ofBool (CheckPasswd h' pw) := by
+  cases hl : lookup st u with
+  | none => exact absurd hl hu
+  | some h => simp [step, hl, loginQuery, lookup_set_self]
+
+open Login in
+/-- … and the other users' logins are not affected by it. -/
+theorem login_other_user_unaffected (st : Store) (u v h' pw : List Nat) (hne : v ≠ u) :
+    (step (step st (Op.sethash u h')).1 (Op.login v pw)).2 = (step st (Op.login v pw)).2 := by
+  cases hl : lookup st u with
+  | none => simp [step, hl]
+  | some h => simp [step, hl, loginQuery, lookup_set_other _ _ _ _ hne]
+
+open Login in
+/-- a successful ChangePasswd to a password whose first byte is not NUL: afterwards the new password logs in, for
+every value of the random source, and any password is judged against the new hash only. -/
+theorem login_after_changePasswd (st st' : Store) (u old new : List Nat) (num : Nat) (hn : new ≠ []) (h0 : new[0]? ≠ some 0)
+    (hc : changePasswd st u old new num = .ok (st', true)) :
+    loginQuery st' u new = .ok true ∧
+      ∃ g, GenPasswdWith num new = .ok g ∧ ∀ pw, loginQuery st' u pw = CheckPasswd g pw := by
+  obtain ⟨g, hg, hchk⟩ := check_gen num new hn h0
+  unfold changePasswd at hc
+  cases hl : lookup st u with
+  | none => simp [hl, pure, Except.pure] at hc
+  | some h =>
+    simp only [hl] at hc
+    cases hck : CheckPasswd h old with
+    | error e => simp [hck, bind, Except.bind] at hc
+    | ok b =>
+      cases b with
+      | false => simp [hck, bind, Except.bind, pure, Except.pure] at hc
+      | true =>
+        simp only [hck, hg, bind, Except.bind, pure, Except.pure, Bool.not_true, Bool.false_eq_true, if_false,
+          Except.ok.injEq, Prod.mk.injEq, and_true] at hc
+        subst hc
+        have hq : ∀ pw, loginQuery (set st u g) u pw = CheckPasswd g pw := by
+          intro pw; simp [loginQuery, lookup_set_self]
+        exact ⟨by rw [hq]; exact hchk, g, hg, hq⟩
+
+open Login in
+/-- the broken rule, as a witness: a LoginQuery that remembers the last accepted password per user accepts the old
+password after the stored hash has been replaced, although the store refuses it. -/
+theorem remembering_login_accepts_stale :
+    ∃ (u A hA hB : List Nat),
+      let st := [(u, hA)]
+      let r1 := loginRemembering [] st u A
+      let st' := set st u hB
+      r1.2 = Out.ok ∧ (loginRemembering r1.1 st' u A).2 = Out.ok ∧ ofBool (loginQuery st' u A) = Out.refused :=
+  ⟨[97, 98], [65], [65, 65, 68, 112, 50, 47, 113, 83, 122, 117, 75, 116, 85, 0],
+    [65, 65, 85, 104, 87, 70, 66, 90, 66, 50, 46, 119, 89, 0], by decide +kernel⟩
+
 
 end PttVerif.C02.Props
